@@ -20,6 +20,10 @@ def base_images(ctx):
         im = mkimage.Image(1760, flav, rng, policy="random")
         data = im.build(tree)
         out.append((flav, 1760, data, "mkimage"))
+    # a hardfile whose size needs exactly one bitmap page (4064 + 3 blocks): a second page pointer in the root is one too many
+    small = {b"small": [b"hello", 0, b""], b"dir": {b"in1": [b"x" * 600, 0, b""]}, b"big": [bytes(rng.randrange(256) for _ in range(997)) * 40, 0, b""]}
+    im = mkimage.Image(4067, 1, rng, policy="random")
+    out.append((1, 4067, im.build(small), "mkimage-hardfile-4067"))
     return out
 
 
@@ -52,7 +56,7 @@ def run(ctx):
         # data blocks of FFS files are not metadata: keep blocks whose type field looks like metadata plus OFS data blocks (first few)
         fields = mutimg.metadata_fields(data, n, owned, flav)
         rng.shuffle(fields)
-        nbases = 4 if ctx.tier == "quick" else len(gen.FLAVOURS)
+        nbases = 5 if ctx.tier == "quick" else len(gen.FLAVOURS) + 1
         per_image = budget // nbases
 
         def fname(f):
